@@ -1,7 +1,8 @@
 #!/usr/bin/env python3
 """Holds fcntl (POSIX advisory) locks on the files listed on stdin until stdin is closed.
 
-Input: one JSON list of [hex-path, "ex"|"sh"] pairs on the first line. Prints "ready" once all locks are held."""
+Input: one JSON list of [hex-path, "ex"|"sh", start, length] items on the first line (length 0 = to the end of the
+file and beyond, as fcntl defines it; start/length may be omitted = whole file). Prints "ready" once all locks are held."""
 import fcntl
 import json
 import os
@@ -9,10 +10,12 @@ import sys
 
 items = json.loads(sys.stdin.readline())
 fds = []
-for hexpath, mode in items:
+for it in items:
+    hexpath, mode = it[0], it[1]
+    start, length = (it[2], it[3]) if len(it) >= 4 else (0, 0)
     path = bytes.fromhex(hexpath)
     fd = os.open(path, os.O_RDWR if mode == "ex" else os.O_RDONLY)
-    fcntl.lockf(fd, fcntl.LOCK_EX if mode == "ex" else fcntl.LOCK_SH)
+    fcntl.lockf(fd, fcntl.LOCK_EX if mode == "ex" else fcntl.LOCK_SH, length, start, os.SEEK_SET)
     fds.append(fd)
 sys.stdout.write("ready\n")
 sys.stdout.flush()
